@@ -59,6 +59,8 @@ def systems(tier):
     S_["coupled-rf"] = ("SolveUnc", dict(m=m3, b=bo, k=krf, h=h, rf=[2]))
     S_["se2"] = ("SolveExp2", dict(m=m3, b=bd, k=k3, h=h))
     S_["se2-full"] = ("SolveExp2", dict(m=mfull, b=bfull, k=kfull, h=h))
+    # a full mass that is not symmetric (nothing in the solvers asks for symmetry): inv(m) and inv(m).T differ
+    S_["se2-full-nonsym"] = ("SolveExp2", dict(m=mfull + np.array([[0.0, 0.25, 0.0], [0.0, 0.0, -0.2], [0.1, 0.0, 0.0]]), b=bfull, k=kfull, h=h))
     S_["se2-rf"] = ("SolveExp2", dict(m=None, b=bo, k=krf, h=h, rf=[2]))
     if tier == "thorough":
         S_["unc-crit-over"] = ("SolveUnc", dict(m=m3, b=2 * np.array([0.0, 1.0, 2.5]) * np.sqrt(k3 / m3) * m3, k=k3, h=h))
